@@ -354,6 +354,11 @@ def run_seed(job) -> dict:
     out.update(digest=result['digest'], steps=result['steps'], vtime=result['vtime'], switches=result['switches'],
                stats=result['stats'], probes=result['probes'], nreq=len(cfg['requests']), ntasks=result['ntasks'],
                faulty=cfg['faulty'], ndecisions=len(result['decisions']))
+    for req in cfg['requests']:
+        if req['fail']:
+            out['stats'][f'fault:failing-request:{req["fail"]}'] = out['stats'].get(f'fault:failing-request:{req["fail"]}', 0) + 1
+        if req.get('swapped'):
+            out['stats']['fault:columns-swapped'] = out['stats'].get('fault:columns-swapped', 0) + 1
     out['shape'] = base.digest([len(cfg['apps']), [a['kind'] for a in cfg['apps']], cfg['processes'],
                                 len(cfg['requests']), sorted(r['fail'] or '' for r in cfg['requests'])])
     for vio in violations:
